@@ -28,10 +28,21 @@ Profiles == <<
     [name |-> <<233, 59, 61, 32, 97>>, fkind |-> 1, fname |-> <<102, 46, 116>>,    ctype |-> T_PLAIN_CS, hv |-> 1],
     [name |-> <<97>>,                  fkind |-> 2, fname |-> <<8364, 32, 120>>,   ctype |-> T_OCTET,    hv |-> 2],
     [name |-> <<110, 45, 49>>,         fkind |-> 1, fname |-> <<>>,                ctype |-> T_PLAIN,    hv |-> 3] >>
+(* file names in RFC 5987 form with 2-, 3- and 4-byte sequences / without any escape (corruption exports) *)
+XProfiles == <<
+    [name |-> <<97>>, fkind |-> 2, fname |-> <<233, 8364, 128512>>,      ctype |-> NONE, hv |-> 0],
+    [name |-> <<97>>, fkind |-> 2, fname |-> <<97, 46, 116, 120, 116>>,  ctype |-> NONE, hv |-> 0] >>
+(* charset labels one edit away from "UTF-8" (edit bytes - X 2 A b): the ones CPython's codec registry
+   resolves to UTF-8; every other label of that neighbourhood made of word characters and dashes is unknown
+   to it (table computed once with codecs.lookup, part of the trusted base) *)
+Utf8Labels == { <<85, 84, 70, 45, 56>>, <<85, 84, 70, 56>>, <<85, 84, 70, 45>>, <<85, 84, 70, 45, 45>>, <<85, 84, 70, 45, 45, 56>>,
+                <<85, 84, 70, 45, 56, 45>>, <<45, 85, 84, 70, 45, 56>> }
+MCCharsetClass(l) == IF l \in Utf8Labels THEN "utf8" ELSE "bogus"
 JProfile == [name |-> <<106>>, fkind |-> 0, fname |-> <<>>, ctype |-> T_JSON, hv |-> 0]
 
 MkPart(pr, c) == [name |-> pr.name, fkind |-> pr.fkind, fname |-> pr.fname, ctype |-> pr.ctype, hv |-> pr.hv, content |-> c]
-MCPartPool == {MkPart(Profiles[i], Contents[j]) : i \in ProfileSel, j \in ContentSel}
+MCPartPool == {MkPart(Profiles[i], Contents[j]) : i \in ProfileSel \cap 1..4, j \in ContentSel}
+              \cup {MkPart(XProfiles[i - 4], Contents[j]) : i \in ProfileSel \cap 5..6, j \in ContentSel}
               \cup (IF UseJson THEN {MkPart(JProfile, J1), MkPart(JProfile, J2)} ELSE {})
 
 Boundaries == << <<98>>, <<98, 81>>, B70 >>
